@@ -414,10 +414,11 @@ class Table:
         return (depth, levels, quote if uses_quote else 0, st_pos if uses_pos else 0, dbl if uses_dbl else 0,
                 hs if uses_quote else 0)
 
-    def build(self, start=None, limit=4000, budget_s=None):
+    def build(self, start=None, limit=None, budget_s=None):
         import time
         t0 = time.time()
         budget_s = budget_s or float(os.environ.get("JCV_TOK_BUDGET", "150"))
+        limit = limit or int(os.environ.get("JCV_TOK_LIMIT", "4000"))
         work = [self.canon(start or initial_config())]
         seen = set(work)
         self.deadline = t0 + budget_s
